@@ -2598,6 +2598,17 @@ class StateEngine(object):
             The Parallel state passes its input (potentially as filtered by the
             “InputPath” field) as the input to each branch’s “StartAt” state.
             """
+
+            """
+            The Map or Parallel branch this (nested) Parallel state belongs to
+            may have been terminated while it was waiting for its (retry) delay
+            to expire, in which case its branches must not be started.
+            """
+            if self.branch_has_terminated(
+                state_type, context, id, ASL.get("TimeoutSeconds", self.execution_ttl)
+            ):
+                return
+
             try:
                 input = apply_path(data, context, state.get("InputPath", "$"))
 
@@ -2755,6 +2766,17 @@ class StateEngine(object):
 
             The “InputPath” field operates as usual, selecting part of the raw input .
             """
+
+            """
+            The Map or Parallel branch this (nested) Map state belongs to may
+            have been terminated while it was waiting for its (retry) delay to
+            expire, in which case its iterations must not be started.
+            """
+            if self.branch_has_terminated(
+                state_type, context, id, ASL.get("TimeoutSeconds", self.execution_ttl)
+            ):
+                return
+
             try:
                 input = apply_path(data, context, state.get("InputPath", "$"))
 
